@@ -8,7 +8,7 @@ from vf.sx.ob import Case
 import kx_c08 as K
 
 MATS = [[[1, -1], [-1, 1]], [[2, 0], [-2, 1]], [[0, 0], [0, 0]], [[-1, -2], [-2, -1]], [[1, 2], [0, -1]]]
-GAPS = [0, -1, -2, (-2, -1), (-1, -2), (0, 0), (-3, 0)]
+GAPS = [0, -1, -2, (-2, -1), (-1, -2), (0, 0), (-3, 0), (-1, -1), (-3, -3), (-1, 0)]
 MAXN = [1, 2, 1000]
 MODES = [(False, True), (False, False), (True, True)]
 
@@ -16,7 +16,7 @@ MODES = [(False, True), (False, False), (True, True)]
 def check(n, m, codes, mi, gi, mode, mx, wide_alphabet):
     from biotite.sequence import Alphabet, GeneralSequence
     from biotite.sequence.align import SubstitutionMatrix, align_optimal, score as aln_score
-    c1, c2 = codes[:n], codes[3:3 + m]
+    c1, c2 = [codes[i % 3] for i in range(n)], [codes[3 + j % 3] for j in range(m)]          # (longer sequences repeat the three codes)
     gap = GAPS[gi]
     affine = isinstance(gap, tuple)
     local, term = MODES[mode]
@@ -90,4 +90,20 @@ def ob_align_optimal(tier):
                 return check(n, m, codes, a, b, mode, c, bool(d)) is None
             cases.append(Case(f"align_optimal {n}x{m} mode={MODES[mode]}", base, run,
                               dict(n=n, m=m, codes=cs, mi=mi, gi=gi, mode=mode, mx=mx, wide=wd), _rep))
+    # long thin tables: chains of gap extensions along the border run through the 'minus infinity' cells of the affine
+    # tables (their sentinel must not wrap however many penalties are added to it)
+    for (n, m) in [(1, 8), (8, 1), (2, 6), (6, 2)]:
+        for mode in range(2):
+            cs = [z3.Int(f"c{i}") for i in range(6)]
+            mi, gi = z3.Ints("mi gi")
+            affine_ix = [k for k, g in enumerate(GAPS) if isinstance(g, tuple)]
+            base = [z3.And(c >= 0, c <= 1) for c in cs] + [mi >= 0, mi < len(MATS), z3.Or(*[gi == k for k in affine_ix])]
+            base += [cs[i] == 0 for i in range(min(n, 3), 3)] + [cs[3 + j] == 0 for j in range(min(m, 3), 3)]
+
+            def run(n=n, m=m, mode=mode, cs=cs, mi=mi, gi=gi):
+                ex = cur()
+                codes = [ex.choose(c, range(2)) for c in cs]
+                return check(n, m, codes, ex.choose(mi, range(len(MATS))), ex.choose(gi, affine_ix), mode, 2, False) is None
+            cases.append(Case(f"align_optimal {n}x{m} mode={MODES[mode]} (affine, long border)", base, run,
+                              dict(n=n, m=m, codes=cs, mi=mi, gi=gi, mode=mode, mx=2, wide=0), _rep))
     return cases
